@@ -115,7 +115,7 @@ def number(recipe: Any, counter: list[int] | None = None) -> Any:
         else:
             new_kids.append((fname, tuple(number(c, counter) for c in val)))
     p = dict(props)
-    if cls in ("VLeaf", "VSubLeaf", "VMixed", "VInh", "VFalsy", "VTwinA", "VTwinB", "VNonCmp", "VNonInit", "VMixLeaf", "VLateMix", "VDiamond", "VIter", "VSlot"):
+    if cls in ("VLeaf", "VSubLeaf", "VMixed", "VInh", "VFalsy", "VTwinA", "VTwinB", "VNonCmp", "VNonInit", "VMixLeaf", "VLateMix", "VDiamond", "VIter", "VSlot", "VNcKid"):
         p.setdefault("v", me)
     if cls == "VStr2":
         p.setdefault("a", f"s{me}")
@@ -156,4 +156,5 @@ def exotic_shapes() -> list[Any]:
         R("VTwoSeq", left=(L(), R("VIter", items=(L(),))), right=(L(),), mid=R("VFalsy")),
         R("VMany", items=(R("VMixLeaf"), R("VSlot", kid=L()), R("VFlags", {"h": 1}), R("VDiamond"))),
         R("VSlot", kid=R("VTwoSeq", left=(L(),), right=(L(), L()))),
+        R("VNcKid", kid=L(), trivia=(L(), R("VNcKid", kid=L())), main=L()),  # child fields declared compare=False
     )]
